@@ -4,7 +4,7 @@
    Mirrors (Go function -> here):
      printer.print                      -> pr        (append; any non-empty print invalidates the position markers)
      printer.printSpace                 -> printSpace
-     printer.printSpaceBeforeIdentifier -> printSpaceBeforeIdentifier
+     printer.printSpaceBeforeIdentifier -> printSpaceBeforeIdentifier (with endsWithIdentifierEscape of fix 6d63f64 -> ends_esc)
      printer.printSpaceBeforeOperator   -> printSpaceBeforeOperator
      printExpr case EUnary              -> emit (IOp o), o prefix/postfix
      binaryExprVisitor.visitRightAndFinish (operator part) -> emit (IOp o), o binary
@@ -132,26 +132,49 @@ Inductive item :=
 
 Inductive mark := MNone | MOp (o : op) | MNum | MRe.
 (* lastc/last2 = -1 when the buffer is shorter *)
-Record pst := mkPst { lastc : Z; last2 : Z; mk : mark }.
-Definition st0 : pst := mkPst (-1) (-1) MNone.
+(* esc: the buffer ends in a "\u{HEX}" identifier escape (endsWithIdentifierEscape(p.js),
+   added by fix 6d63f64; in the fragment only an identifier print can end that way) *)
+Record pst := mkPst { lastc : Z; last2 : Z; mk : mark; esc : bool }.
+Definition st0 : pst := mkPst (-1) (-1) MNone false.
+
+Definition is_hex (c : Z) : bool :=
+  ((48 <=? c) && (c <=? 57)) || ((97 <=? c) && (c <=? 102)) || ((65 <=? c) && (c <=? 70)).
+Fixpoint take_while (f : Z -> bool) (s : list Z) : list Z * list Z :=
+  match s with
+  | c :: r => if f c then let '(a, b) := take_while f r in (c :: a, b) else ([], s)
+  | [] => ([], [])
+  end.
+(* endsWithIdentifierEscape: "}" preceded by at least one hex digit preceded by "\u{" *)
+Definition ends_esc (t : list Z) : bool :=
+  match rev t with
+  | c :: r =>
+      if c =? 125 then
+        let '(h, r') := take_while is_hex r in
+        match h, r' with
+        | _ :: _, ob :: u :: bs :: _ => (ob =? 123) && (u =? 117) && (bs =? 92)
+        | _, _ => false
+        end
+      else false
+  | [] => false
+  end.
 
 (* a printing action: state -> state * appended bytes *)
 Definition act := pst -> pst * list Z.
 Definition pr (t : list Z) : act := fun st =>
   match t with
   | [] => (st, [])
-  | _ => (mkPst (last t 0) (last (removelast t) (lastc st)) MNone, t)
+  | _ => (mkPst (last t 0) (last (removelast t) (lastc st)) MNone (ends_esc t), t)
   end.
 Definition seq (a b : act) : act := fun st =>
   let '(s1, o1) := a st in let '(s2, o2) := b s1 in (s2, o1 ++ o2).
 Infix ";;" := seq (at level 61, left associativity).
 Definition nop : act := fun st => (st, []).
-Definition set_mark (m : mark) : act := fun st => (mkPst (lastc st) (last2 st) m, []).
+Definition set_mark (m : mark) : act := fun st => (mkPst (lastc st) (last2 st) m (esc st), []).
 
 Definition printSpace (mw : bool) : act := if mw then nop else pr [32].
 
 Definition printSpaceBeforeIdentifier : act := fun st =>
-  if is_id_part (lastc st) || (match mk st with MRe => true | _ => false end) then pr [32] st else nop st.
+  if is_id_part (lastc st) || (match mk st with MRe => true | _ => false end) || esc st then pr [32] st else nop st.
 
 Definition space_rule (prev next : op) (st : pst) : bool :=
   ((op_eqb prev BAdd || op_eqb prev UPos) && (op_eqb next BAdd || op_eqb next UPos || op_eqb next UPreInc))
